@@ -197,7 +197,7 @@ def run_shard(desc, ctx):
                 d2 = False
                 ctx.ev('document:deep')
             else:
-                src, recs = gen_css.gen_sheet(rng, p_sip=0.5 if d2 else 0.0)
+                src, recs = gen_css.gen_sheet(rng, p_sip=0.5 if d2 else 0.0, allow_nosemi=(k % 2 == 0))
             if len(src) > 900:
                 continue
             check_doc(src, recs, ctx, cm, d2=d2)
